@@ -40,8 +40,10 @@ import (
 	"math/rand"
 	"os"
 	"path/filepath"
+	"runtime"
 	"sort"
 	"strconv"
+	"strings"
 	"sync"
 	"time"
 
@@ -75,6 +77,9 @@ type ev struct {
 	Panic int    `json:"panic"`
 	Hang  int    `json:"hang"`
 	R     []int  `json:"r"`
+	Errc  string `json:"errc"` // first documented kind found along the Unwrap chain of the error ("" if none)
+	Site  string `json:"site"` // innermost library function on the stack of a panic
+	Via   string `json:"via"`  // its caller inside the library
 	Msg   string `json:"msg"`
 	Ms    int    `json:"ms"`
 	Skip  int    `json:"skip"`
@@ -97,6 +102,22 @@ func kind(err error) string {
 		return "Writer"
 	}
 	return "Other"
+}
+
+// chainKind walks the Unwrap chain for the first error of a documented kind.
+func chainKind(err error) string {
+	for i := 0; err != nil && i < 20; i++ {
+		switch kind(err) {
+		case "NotFound", "Checksum", "Format":
+			return kind(err)
+		}
+		u, ok := err.(interface{ Unwrap() error })
+		if !ok {
+			break
+		}
+		err = u.Unwrap()
+	}
+	return ""
 }
 
 // outcome codes of block events: 0 result, 1 Format error, 2 other reader error kind, 3 untyped error, 4 panic,
@@ -122,7 +143,10 @@ func outcome(res bool, err error, p string) int {
 }
 
 // ---------------------------------------------------------------- hints
-var charsets = []string{"UTF-8", "SJIS", "ISO8859_1", "UTF-16BE", "EUC-JP", "windows-1252", "US-ASCII", "GB2312", "Big5", "EUC-KR"}
+// hint codes 10..19: character sets known to be supported; 20..: IANA names without an implementation, and a name that
+// is no character set at all (all well-typed values of the CHARACTER_SET hint: strings)
+var charsets = []string{"UTF-8", "SJIS", "ISO8859_1", "UTF-16BE", "EUC-JP", "windows-1252", "US-ASCII", "GB2312", "Big5", "EUC-KR",
+	"UTF-7", "UTF-32", "ISO-2022-KR", "no-such-charset"}
 var formatSets = [][]gozxing.BarcodeFormat{
 	{gozxing.BarcodeFormat_EAN_13},
 	{gozxing.BarcodeFormat_UPC_A, gozxing.BarcodeFormat_UPC_E},
@@ -947,24 +971,75 @@ func eciCall(form, v int) (bool, error) {
 
 var watchdog = 20 * time.Second
 
+const libPrefix = "github.com/makiuchi-d/gozxing/"
+
+// guardSite runs f; a panic is reported as its text and the innermost function of the library on the stack.
+func guardSite(f func()) (p, site string) {
+	p, site, _ = guardSite2(f)
+	return
+}
+
+func guardSite2(f func()) (p, site, via string) {
+	defer func() {
+		if r := recover(); r != nil {
+			p = fmt.Sprint(r)
+			if len(p) > 200 {
+				p = p[:200]
+			}
+			pcs := make([]uintptr, 64)
+			n := runtime.Callers(2, pcs)
+			frames := runtime.CallersFrames(pcs[:n])
+			for {
+				fr, more := frames.Next()
+				if strings.HasPrefix(fr.Function, libPrefix) || strings.HasPrefix(fr.Function, "github.com/makiuchi-d/gozxing.") {
+					name := strings.TrimPrefix(strings.TrimPrefix(fr.Function, libPrefix), "github.com/makiuchi-d/")
+					if site == "" {
+						site = name
+					} else {
+						via = name
+						break
+					}
+				}
+				if !more {
+					break
+				}
+			}
+		}
+	}()
+	f()
+	return "", "", ""
+}
+
 // guarded runs f under recover() in its own goroutine with a watchdog.
 func guarded(f func() (bool, error)) (res bool, err error, p string, hang bool) {
+	res, err, p, _, hang = guardedSite(f)
+	return
+}
+
+func guardedSite(f func() (bool, error)) (res bool, err error, p, site string, hang bool) {
+	res, err, p, site, _, hang = guardedSite2(f)
+	return
+}
+
+func guardedSite2(f func() (bool, error)) (res bool, err error, p, site, via string, hang bool) {
 	type out struct {
-		res bool
-		err error
-		p   string
+		res          bool
+		err          error
+		p, site, via string
 	}
 	ch := make(chan out, 1)
 	go func() {
 		var o out
-		o.p = hlib.Guard(func() { o.res, o.err = f() })
+		o.p, o.site, o.via = guardSite2(func() { o.res, o.err = f() })
 		ch <- o
 	}()
+	t := time.NewTimer(watchdog)
+	defer t.Stop()
 	select {
 	case o := <-ch:
-		return o.res, o.err, o.p, false
-	case <-time.After(watchdog):
-		return false, nil, "", true
+		return o.res, o.err, o.p, o.site, o.via, false
+	case <-t.C:
+		return false, nil, "", "", "", true
 	}
 }
 
@@ -1170,7 +1245,8 @@ func main() {
 			return nil, err
 		}
 		e.A, e.B, e.H, e.R = hlib.NZ(e.A), hlib.NZ(e.B), hlib.NZ(e.H), []int{}
-		e.Res, e.Err, e.Panic, e.Hang, e.Msg = 0, "", 0, 0, ""
+		e.Via = ""
+		e.Res, e.Err, e.Errc, e.Site, e.Panic, e.Hang, e.Msg, e.Skip = 0, "", "", "", 0, 0, "", 0
 		t0 := time.Now()
 		if e.Op == "eci" {
 			form, lo, n := arg(e.A, 0, 1), arg(e.A, 1, 0), arg(e.A, 2, 1)
@@ -1207,7 +1283,7 @@ func main() {
 		if f == nil {
 			return nil, fmt.Errorf("unknown op %q", e.Op)
 		}
-		res, err, p, hang := guarded(f)
+		res, err, p, site, via, hang := guardedSite2(f)
 		e.Ms = int(time.Since(t0) / time.Millisecond)
 		if hang {
 			e.Hang = 1
@@ -1217,7 +1293,7 @@ func main() {
 			if len(p) >= 8 && p[:8] == "harness:" {
 				return nil, fmt.Errorf("%s", p)
 			}
-			e.Panic, e.Msg = 1, p
+			e.Panic, e.Msg, e.Site, e.Via = 1, p, site, via
 			return e, nil
 		}
 		if err != nil {
@@ -1228,7 +1304,7 @@ func main() {
 				e.Skip, e.Msg = 1, m // no call of the function under observation took place
 				return e, nil
 			}
-			e.Err = kind(err)
+			e.Err, e.Errc = kind(err), chainKind(err)
 			e.Msg = err.Error()
 			if len(e.Msg) > 160 {
 				e.Msg = e.Msg[:160]
